@@ -5,7 +5,7 @@
    C19_counts_are_pincus state it in full; (b) the code agrees with the model — that is the
    correspondence run (Corr/C19.v), not a theorem. *)
 From Coq Require Import String Reals Lia.
-From CPL Require Import Model.Base Model.Apen Proofs.ApenExact Proofs.ApenProofs.
+From CPL Require Import Model.Base Model.Apen Proofs.ApenExact Proofs.ApenProofs Corr.C19 Proofs.ApenCorrProofs.
 From Interval Require Import Xreal Interval.
 
 (* ---------------------------------------------------------------- exact layer (no axioms) *)
@@ -116,6 +116,33 @@ Theorem C19_close_to_model_sound : forall m r U mant ex, (0 <= r)%Z -> (m + 1 <=
   close_to_model m r U mant ex = true -> Rabs (doubleR mant ex - apenR m r U) <= / IZR (2 ^ 30).
 Proof. exact close_to_model_sound. Qed.
 
+(* real-valued tolerances (r = 0.5, 0.2 * std, ...): an integer distance d is within a real r exactly when
+   it is within floor r, so the counts for a real tolerance are the integer model's counts for its floor *)
+Theorem C19_real_tolerance_floor : forall (d : Z) (rr : R), IZR d <= rr <-> (d <= Raux.Zfloor rr)%Z.
+Proof. exact real_tolerance_floor. Qed.
+
+Theorem C19_real_tolerance_counts : forall m (rr : R) U,
+  map (fun xi => length (filter (fun xj => if Rle_dec (IZR (max_dist xi xj)) rr then true else false)
+                                (xwindows m U))) (xwindows m U)
+  = Cs m (Raux.Zfloor rr) U.
+Proof. exact CsR_floor. Qed.
+
+(* soundness of the correspondence comparison itself (Corr/C19.check_case): a passing value case means the
+   model returns a real value within 2^-30 of the transported double and the observed counts are the
+   model's; a passing exception case means the model raises, and a model TypeError only passes on TypeError *)
+Theorem C19_check_case_sound : forall inp m r mant ex cnt, (0 <= r)%Z ->
+  check_case (CApen inp m r (Ok (Dbl mant ex)) cnt) = true ->
+  exists x U, apen inp m r = Ok x /\ normalise inp = Ok U /\
+    Rabs (doubleR mant ex - x) <= / IZR (2 ^ 30) /\
+    (forall o1 o0, cnt = Some (o1, o0) -> o1 = Cs (S m) r U /\ o0 = Cs m r U).
+Proof. exact check_case_sound_value. Qed.
+
+Theorem C19_check_case_sound_exc : forall inp m r e cnt, (0 <= r)%Z ->
+  check_case (CApen inp m r (Raise e) cnt) = true ->
+  (exists e', apen inp m r = Raise e' /\ (e' = TypeError -> e = TypeError)) /\
+  check_case (CApen inp m r (Ok NonFinite) cnt) = false.
+Proof. intros inp m r e cnt Hr H; split; [exact (check_case_sound_exc inp m r e cnt Hr H) | apply check_case_nonfinite]. Qed.
+
 (* non-vacuity: a non-constant sequence in the domain in its three forms, its exact counts (with strict
    instances of C monotonicity), an enclosure far from 0 (apen("0120120121", 2, 1) = 0.37955710034251244
    = 1709373215668365 * 2^-52), which the comparison accepts, while it rejects 0 and the next-but-one double *)
@@ -156,3 +183,7 @@ Print Assumptions C19_apen_list_array.
 Print Assumptions C19_apen_type_error.
 Print Assumptions C19_twin_encloses.
 Print Assumptions C19_close_to_model_sound.
+Print Assumptions C19_real_tolerance_floor.
+Print Assumptions C19_real_tolerance_counts.
+Print Assumptions C19_check_case_sound.
+Print Assumptions C19_check_case_sound_exc.
